@@ -65,6 +65,7 @@ pub fn run<'tcx>(tcx: TyCtxt<'tcx>) -> String {
     // fingerprints: a normalised print of every body, hashed, keyed by crate-independent def-path (C20: a feature only adds items)
     let mut fps = vec![];
     let mut keys = vec![];
+    let mut dbgs: Vec<String> = vec![];
     for ldid in tcx.hir_body_owners() {
         let did = ldid.to_def_id();
         if !matches!(tcx.def_kind(did), rustc_hir::def::DefKind::Fn | rustc_hir::def::DefKind::AssocFn | rustc_hir::def::DefKind::Closure) {
@@ -75,12 +76,32 @@ pub fn run<'tcx>(tcx: TyCtxt<'tcx>) -> String {
         for (l, d) in body.local_decls.iter_enumerated() {
             txt.push_str(&format!("{:?}:{:?};", l, d.ty));
         }
+        // `debug_assert!` expands to `if cfg!(debug_assertions) { assert!(..) }`: the literal is the only thing that differs between a debug and a
+        // release build of a body. It is masked in the fingerprint (configuration-invariance rule) and the asserted region is checked for purity.
+        let mut dbg_sites: Vec<rustc_span::Span> = vec![];
         for (bb, data) in body.basic_blocks.iter_enumerated() {
             txt.push_str(&format!("{:?}:", bb));
             for st in &data.statements {
+                if let rustc_middle::mir::StatementKind::Assign(b) = &st.kind {
+                    if let rustc_middle::mir::Rvalue::Use(rustc_middle::mir::Operand::Constant(c), ..) = &b.1 {
+                        if c.const_.ty().is_bool() {
+                            if let Some(site) = debug_assert_site(st.source_info.span) {
+                                txt.push_str(&format!("{:?} = const <cfg(debug_assertions)>;", b.0));
+                                if !dbg_sites.iter().any(|d| same_span(*d, site)) {
+                                    dbg_sites.push(site);
+                                }
+                                continue;
+                            }
+                        }
+                    }
+                }
                 txt.push_str(&format!("{:?};", st.kind));
             }
             txt.push_str(&format!("{:?}|", data.terminator().kind));
+        }
+        if !dbg_sites.is_empty() {
+            let impure = debug_region_impurities(tcx, body, &dbg_sites);
+            dbgs.push(format!("{}:[{},[{}]]", jstr(&tcx.def_path_str(did)), dbg_sites.len(), impure.iter().map(|x| jstr(x)).collect::<Vec<_>>().join(",")));
         }
         let txt = normalise(&txt);
         let mut h: u64 = 0xcbf29ce484222325;
@@ -105,7 +126,7 @@ pub fn run<'tcx>(tcx: TyCtxt<'tcx>) -> String {
         keys.push(format!("{}:[{},{},{},{},{}]", jstr(&tcx.def_path(did).to_string_no_crate_verbose()), jstr(&key), public, jstr(&file), lo.line, hi.line));
     }
     let adtj: Vec<String> = adts.iter().map(|(k, v)| format!("{}:{}", jstr(k), v)).collect();
-    format!("{{\"bodies\":{},\"intoiter_access\":[{}],\"intoiter_structs\":{{{}}},\"fingerprints\":{{{}}},\"bodykeys\":{{{}}}}}", bodies, rows.join(","), adtj.join(","), fps.join(","), keys.join(","))
+    format!("{{\"bodies\":{},\"intoiter_access\":[{}],\"intoiter_structs\":{{{}}},\"fingerprints\":{{{}}},\"bodykeys\":{{{}}},\"debug_assert_bodies\":{{{}}}}}", bodies, rows.join(","), adtj.join(","), fps.join(","), keys.join(","), dbgs.join(","))
 }
 
 /// strip crate-local numbering from Debug prints: `DefId(0:24 ~ vek[c083]::ops::X)` -> `DefId(vek::ops::X)`
@@ -140,6 +161,94 @@ fn normalise(s: &str) -> String {
         }
         out.push(b[i] as char);
         i += 1;
+    }
+    out
+}
+
+fn same_span(a: rustc_span::Span, b: rustc_span::Span) -> bool {
+    a.lo() == b.lo() && a.hi() == b.hi() && a.ctxt() == b.ctxt()
+}
+
+/// the call site of the innermost `debug_assert*!` invocation this span was expanded from, if any
+fn debug_assert_site(sp: rustc_span::Span) -> Option<rustc_span::Span> {
+    for e in sp.macro_backtrace() {
+        if let rustc_span::ExpnKind::Macro(_, name) = e.kind {
+            let n = name.as_str();
+            if n == "debug_assert" || n == "debug_assert_eq" || n == "debug_assert_ne" {
+                return Some(e.call_site);
+            }
+        }
+    }
+    None
+}
+
+fn in_site(sp: rustc_span::Span, sites: &[rustc_span::Span]) -> bool {
+    for d in sites {
+        if sp.ctxt() == d.ctxt() && sp.lo() >= d.lo() && sp.hi() <= d.hi() {
+            return true;
+        }
+        if sp.macro_backtrace().any(|e| same_span(e.call_site, *d)) {
+            return true;
+        }
+    }
+    false
+}
+
+/// Statements that belong to a `debug_assert!` invocation (the asserted expression and the expansion's own code) vanish in a release build.
+/// They must not have effects other than panicking: no write to anything but a compiler temporary, no mutable borrow, no move out of a
+/// user variable or argument.
+fn debug_region_impurities<'tcx>(tcx: TyCtxt<'tcx>, body: &Body<'tcx>, sites: &[rustc_span::Span]) -> Vec<String> {
+    use rustc_middle::mir::{BorrowKind, Operand, Rvalue, StatementKind, TerminatorKind};
+    let _ = tcx;
+    // user variables are the locals named by the debug info (`local_info` is cleared in optimized MIR)
+    let user: std::collections::BTreeSet<usize> = body
+        .var_debug_info
+        .iter()
+        .filter_map(|v| match &v.value {
+            rustc_middle::mir::VarDebugInfoContents::Place(p) => Some(p.local.as_usize()),
+            _ => None,
+        })
+        .collect();
+    // a local declared by the invocation itself (the `left_val` / `right_val` bindings of `debug_assert_eq!`) lives and dies inside it
+    let is_temp = |l: rustc_middle::mir::Local| l.as_usize() > body.arg_count && (!user.contains(&l.as_usize()) || in_site(body.local_decls[l].source_info.span, sites));
+    let mut out = vec![];
+    let mut check_operand = |o: &Operand<'tcx>, what: &str, out: &mut Vec<String>| {
+        if let Operand::Move(p) = o {
+            if !is_temp(p.local) {
+                out.push(format!("{}: moves out of {:?}", what, p));
+            }
+        }
+    };
+    for (bb, data) in body.basic_blocks.iter_enumerated() {
+        for st in &data.statements {
+            if !in_site(st.source_info.span, sites) {
+                continue;
+            }
+            if let StatementKind::Assign(b) = &st.kind {
+                let (pl, rv) = (&b.0, &b.1);
+                if !is_temp(pl.local) || pl.is_indirect() {
+                    out.push(format!("{:?}: writes {:?}", bb, pl));
+                }
+                match rv {
+                    Rvalue::Ref(_, BorrowKind::Mut { .. }, p) if !is_temp(p.local) || p.is_indirect() => out.push(format!("{:?}: mutable borrow of {:?}", bb, p)),
+                    Rvalue::RawPtr(k, p) if matches!(k, rustc_middle::mir::RawPtrKind::Mut) && (!is_temp(p.local) || p.is_indirect()) => out.push(format!("{:?}: mutable raw borrow of {:?}", bb, p)),
+                    Rvalue::Use(o, ..) => check_operand(o, &format!("{:?}", bb), &mut out),
+                    _ => {}
+                }
+            }
+        }
+        let t = data.terminator();
+        if in_site(t.source_info.span, sites) {
+            match &t.kind {
+                TerminatorKind::Call { args, .. } => {
+                    for a in args.iter() {
+                        check_operand(&a.node, &format!("{:?} call", bb), &mut out);
+                    }
+                }
+                TerminatorKind::Drop { place, .. } if !is_temp(place.local) => out.push(format!("{:?}: drops {:?}", bb, place)),
+                _ => {}
+            }
+        }
     }
     out
 }
